@@ -4,6 +4,7 @@ import (
 	"fmt"
 	"math/big"
 	"sort"
+	"strings"
 	"sync"
 	"sync/atomic"
 	"time"
@@ -30,7 +31,9 @@ const (
 	nPaths
 )
 
-var pathName = [nPaths]string{"peer", "direct", "block", "check-direct"}
+const pathConsensus = nPaths // label only: VoteSet -> NewDuplicateVoteEvidence -> AddEvidenceFromConsensus
+
+var pathName = []string{"peer", "direct", "block", "check-direct", "consensus"}
 
 // dimensions of the matrix
 const (
@@ -316,8 +319,8 @@ func offer(e *poolEnv, path int, ev *types.DuplicateVoteEvidence) (o outcome) {
 	var err error
 	if path == pathPeer || path == pathDirect {
 		err = p.AddEvidence(in)
-		pend, _ := p.PendingEvidence(-1)
-		if err == nil && len(pend) == 1 && pend[0].Hash() == in.Hash() {
+		// accepted = stored as pending (part (b) judges what PendingEvidence lists)
+		if pend, _ := evidence.VerifC19Keys(p); err == nil && len(pend) == 1 && strings.HasSuffix(pend[0], normHash(in.Hash().Hex())) {
 			return outcome{Accepted: true}
 		}
 	} else {
@@ -407,6 +410,10 @@ func judge(e *poolEnv, c ACase, path int, ev *types.DuplicateVoteEvidence, ref r
 			What: fmt.Sprintf("offering the evidence panicked: %s", o.Panic)})
 	case ref.DontCare:
 		r.Add("dontcare_evaluations", 1)
+	case ref.Valid && !o.Accepted && (path == pathDirect || path == pathCheckDirect):
+		// completeness is a statement about what arrives over the wire (or from consensus); an object the
+		// codec would have refused never reaches these entry points
+		r.Add("in_memory_valid_not_accepted", 1)
 	case ref.Valid && !o.Accepted:
 		noteAFailure(aFailure{Oracle: "valid-rejected", Path: path, Class: class, Second: second, Rank: rank, Case: c,
 			What: fmt.Sprintf("reference-valid evidence (two differently-targeted validly signed votes of a member of the set of height %d, stated powers and block time, expiry class %s) rejected at stage %s: %s",
@@ -476,7 +483,7 @@ func runMatrix(cb combo) {
 			r.Add("matrix_reference_valid_cases", 1)
 		}
 		r.Distinct("distinct_nontrivial", fmt.Sprintf("%d/%d/%s/%s/%d", cb.PoolH, cb.EvH, cls, ref.Expiry, acc))
-		if ref.Valid && !ref.DontCare && acc == nPaths && d[dID] == 0 && r.WantSample() {
+		if ref.Valid && !ref.DontCare && acc == nPaths && d[dID] == 0 && takeSample("a", 2) {
 			r.Sample(map[string]interface{}{"part": "a", "pool_height": cb.PoolH, "evidence_height": cb.EvH, "dims": d, "reference": "valid", "accepted_on_paths": acc,
 				"evidence_hash": ev.Hash().Hex()})
 		}
@@ -545,7 +552,9 @@ func mutations() []mutation {
 		mut("index-A+1", "dontcare", func(e *types.DuplicateVoteEvidence, h uint64) { e.VoteA.ValidatorIndex++ }),
 		mut("index-B+1", "dontcare", func(e *types.DuplicateVoteEvidence, h uint64) { e.VoteB.ValidatorIndex++ }),
 		mut("index-both+1", "dontcare", func(e *types.DuplicateVoteEvidence, h uint64) { e.VoteA.ValidatorIndex++; e.VoteB.ValidatorIndex++ }),
-		mut("index-both=99", "dontcare", func(e *types.DuplicateVoteEvidence, h uint64) { e.VoteA.ValidatorIndex, e.VoteB.ValidatorIndex = 99, 99 }),
+		mut("index-both=99", "dontcare", func(e *types.DuplicateVoteEvidence, h uint64) {
+			e.VoteA.ValidatorIndex, e.VoteB.ValidatorIndex = 99, 99
+		}),
 		mut("sigA-malleated-high-s", "", func(e *types.DuplicateVoteEvidence, h uint64) { e.VoteA.Signature = malleate(e.VoteA.Signature) }),
 		mut("sigA-trailing-byte", "reject", func(e *types.DuplicateVoteEvidence, h uint64) { e.VoteA.Signature = append(e.VoteA.Signature, 0) }),
 		mut("sigB-trailing-byte", "reject", func(e *types.DuplicateVoteEvidence, h uint64) { e.VoteB.Signature = append(e.VoteB.Signature, 7) }),
@@ -631,7 +640,7 @@ func runMutations(cb combo) {
 				return
 			}
 		case "accept":
-			if !ref.Valid {
+			if !ref.Valid && whyString(ref.Why) != "expired" {
 				r.Vacuous(fmt.Sprintf("mutation %s: reference predicate calls it invalid (%s) but the mutation list expects acceptance", m.Name, whyString(ref.Why)))
 				return
 			}
@@ -647,7 +656,11 @@ func runMutations(cb combo) {
 				rr.DontCare = true
 			}
 			o := offer(e, path, ev)
-			judge(e, c, path, ev, rr, o, "mut:"+m.Name)
+			cls := "mut:" + m.Name
+			if rr.Valid {
+				cls = idName[0] // a valid variant of the plain pair: same class as the matrix point
+			}
+			judge(e, c, path, ev, rr, o, cls)
 			r.Distinct("distinct_nontrivial", fmt.Sprintf("mut/%d/%d/%s/%d/%v", cb.PoolH, cb.EvH, m.Name, path, o.Accepted))
 		}
 		r.Add("mutation_cases", 1)
@@ -705,20 +718,36 @@ func runConstructor(cb combo) {
 				if order == 1 {
 					v1, v2 = v2, v1
 				}
-				name := fmt.Sprintf("ctor:%s", idName[k])
+				name := idName[k]
 				c := ACase{PoolH: cb.PoolH, EvH: h, Ctor: fmt.Sprintf("%s/type=%d/arg-order=%d", idName[k], t, order)}
+				// what consensus does: the second vote makes the real VoteSet report the conflict, and
+				// tryAddVote hands the two votes of the error to NewDuplicateVoteEvidence
+				flagged := false
 				var ev *types.DuplicateVoteEvidence
 				func() {
 					defer func() {
 						if x := recover(); x != nil {
-							noteAFailure(aFailure{Oracle: "panic", Path: pathDirect, Class: name, Case: c, What: fmt.Sprintf("NewDuplicateVoteEvidence panicked: %v", x)})
+							noteAFailure(aFailure{Oracle: "panic", Path: pathDirect, Class: name, Case: c, What: fmt.Sprintf("VoteSet.AddVote / NewDuplicateVoteEvidence panicked: %v", x)})
 						}
 					}()
-					ev = types.NewDuplicateVoteEvidence(v1, v2, fx.blockTime[h], valset)
+					vs := types.NewVoteSet(chainID, h, 2, t, valset)
+					if _, err := vs.AddVote(v1); err != nil {
+						panic(fmt.Sprintf("harness: first vote refused by the vote set: %v", err))
+					}
+					_, err := vs.AddVote(v2)
+					a, b := v1, v2
+					if ce, ok := err.(*types.ErrVoteConflictingVotes); ok {
+						flagged = true
+						a, b = ce.VoteA, ce.VoteB
+					}
+					ev = types.NewDuplicateVoteEvidence(a, b, fx.blockTime[h], valset)
 				}()
-				if ev == nil {
-					noteAFailure(aFailure{Oracle: "valid-rejected", Path: pathDirect, Class: name, Case: c, What: "NewDuplicateVoteEvidence returned nil for two conflicting votes of a member"})
-					continue
+				r.Add("evaluations", 1)
+				if !flagged {
+					c2 := c
+					c2.Part, c2.Path = "a", "consensus"
+					noteAFailure(aFailure{Oracle: "conflict-not-detected", Path: pathConsensus, Class: name, Case: c2,
+						What: fmt.Sprintf("two validly signed votes of one validator for the same height/round/type and different targets (%s) are not reported as conflicting by the real VoteSet, so consensus never produces evidence for them", idName[k])})
 				}
 				ref := refJudge(ev, e.ctx)
 				if !ref.Valid && ref.Expiry != "both" {
@@ -733,7 +762,7 @@ func runConstructor(cb combo) {
 				}
 				r.Add("constructor_cases", 1)
 				// consensus path: stored without verification, listed as pending, survives a restart
-				if ref.Valid {
+				if ref.Valid && flagged {
 					consensusPath(e, c, ev, name)
 				}
 			}
@@ -746,7 +775,7 @@ func consensusPath(e *poolEnv, c ACase, ev *types.DuplicateVoteEvidence, class s
 	c.Part = "a"
 	defer func() {
 		if x := recover(); x != nil {
-			noteAFailure(aFailure{Oracle: "panic", Path: pathDirect, Class: class + "/consensus", Case: c, What: fmt.Sprintf("AddEvidenceFromConsensus path panicked: %v", x)})
+			noteAFailure(aFailure{Oracle: "panic", Path: pathConsensus, Class: class, Case: c, What: fmt.Sprintf("AddEvidenceFromConsensus path panicked: %v", x)})
 		}
 	}()
 	evdb := memorydb.New()
@@ -773,7 +802,7 @@ func consensusPath(e *poolEnv, c ACase, ev *types.DuplicateVoteEvidence, class s
 		}
 	}
 	if !ok {
-		noteAFailure(aFailure{Oracle: "consensus-evidence-not-kept", Path: pathDirect, Class: class, Case: c,
+		noteAFailure(aFailure{Oracle: "consensus-evidence-not-kept", Path: pathConsensus, Class: class, Case: c,
 			What: fmt.Sprintf("evidence handed over by consensus is not (durably) pending: %v", err)})
 	}
 }
@@ -789,8 +818,8 @@ func partACombos() []combo {
 		{10, 4, full},  // only the height window exceeded, first height of the current set
 		{10, 3, full},  // both windows exceeded: expired
 		{5, 5, full},
-		{5, 2, full},   // expired, old set
-		{5, 1, full},   // initial height, expired
+		{5, 2, full}, // expired, old set
+		{5, 1, full}, // initial height, expired
 	}
 }
 
